@@ -400,5 +400,16 @@ if __name__ == "__main__":
     try:
         sys.exit(main(sys.argv))
     except Exception:
-        traceback.print_exc()
-        sys.exit(2)
+        tb = traceback.format_exc()
+        sys.stderr.write(tb)
+        # an internal error of the machinery (typically: outputs of an unforeseen shape on a changed tree) means the
+        # property is no longer shown to hold: report it as such instead of dying silently
+        try:
+            pid = sys.argv[1]
+            seed = int(os.environ.get("VERIF_SEED", "1"))
+            pth = hh.write_replay(pid, seed, 99, dict(kind="check-internal-error", property=pid, theorem=["the check itself failed to complete"],
+                                                      detail=tb[-3000:], note="no verdict could be computed; nothing was shown to hold"))
+            fail_line(pid, pth, nofail=True)
+            sys.exit(1)
+        except Exception:
+            sys.exit(2)
